@@ -678,16 +678,121 @@ def rule_r5(F, rep):
     rep.floor(R, n, 2, "environment constructions in find_object_field_thunk")
 
 
+LAYER = "rsjsonnet_lang::program::data::ObjectLayer"
+LAYER_PARTS = ("fields", "asserts")      # what a layer contributes to the combined object besides locals
+
+
+def _layer_reads(F, fn, depth=2, _seen=None):
+    """names of ObjectData / ObjectLayer fields read by fn or (to the given depth) the crate-local functions it calls"""
+    _seen = _seen if _seen is not None else set()
+    if fn.q in _seen or fn.body is None:
+        return set()
+    _seen.add(fn.q)
+    out = set()
+    body = fn.body
+    def scan_place(pl):
+        tys = prov.place_types(body, pl)
+        for i, pr in enumerate(pl["p"]):
+            if isinstance(pr, dict) and "f" in pr:
+                t = tys[i]
+                if t["k"] == "adt" and t.get("d") in (OBJD, LAYER):
+                    a = F.adt(t["d"])
+                    out.add(a["variants"][0]["fields"][pr["f"]]["n"])
+    def scan_op(x):
+        if isinstance(x, dict) and x.get("k") in ("move", "copy"):
+            scan_place(x)
+    for blk in body.blocks:
+        if blk["cleanup"]:
+            continue
+        for st in blk["s"]:
+            if st["k"] != "assign":
+                continue
+            rv = st["rv"]
+            for key in ("x", "a", "b"):
+                if key in rv:
+                    scan_op(rv[key])
+            if "p" in rv and isinstance(rv["p"], dict) and "l" in rv["p"]:
+                scan_place(rv["p"])
+            for x in rv.get("xs", []):
+                scan_op(x)
+        t = blk["t"]
+        for x in t.get("xs", []) or []:
+            scan_op(x)
+        if t["k"] == "switch":
+            scan_op(t["x"])
+        if t["k"] == "call" and depth > 0:
+            f = t["f"]
+            if f.get("rlocal") and f.get("r"):
+                g = F.fn_opt(f["r"])
+                if g is not None:
+                    out |= _layer_reads(F, g, depth - 1, _seen)
+    return out
+
+
+def rule_r7(F, rep):
+    from . import evalmarks as em
+    R = rep.rule("C07.R7", "`a + b` on two objects builds the combined object with Program::extend_object on every path; a path "
+                 "that answers with one operand instead must have established that the other contributes nothing — no super "
+                 "layers, no fields and no assertions")
+    BINOP = "rsjsonnet_lang::ast::BinaryOp"
+    EXT = "<%s>::extend_object" % em.PROGRAM
+    fn = F.fn("<%s>::do_binary_op" % em.EVAL)
+    rep.fn(fn)
+    body = fn.body
+    opl = [l for l in range(2, body.argc + 1) if body.local_ty(l).get("d") == BINOP]
+    if not opl:
+        raise kwalk.WalkLimit("do_binary_op: operator argument not found")
+
+    def extra(w, bb, t, env):
+        if t["k"] == "call":
+            f = t["f"]
+            n = callee_name(t) or ""
+            if n == EXT:
+                return ("ext",)
+            if f.get("rlocal") and f.get("r"):
+                return ("lcall", f["r"])
+        return None
+    outs = em.walk_handler(F, rep, fn, values=["Object", "Object"], env={str(opl[0]): ("var", BINOP, "Add")},
+                           want_calls=False, extra_term=extra)
+    n = 0
+    for o in outs:
+        if o[0] != "return" or em.is_err_return(o):
+            continue
+        n += 1
+        marks = list(o[1])
+        if any(m[0] == "ext" for m in marks):
+            rep.ob(R, "add-objects|path%d|extend_object" % n, True)
+            continue
+        reads = set()
+        helpers = sorted({m[1] for m in marks if m[0] == "lcall"})
+        for h in helpers:
+            g = F.fn_opt(h)
+            if g is not None:
+                reads |= _layer_reads(F, g)
+        reads |= _layer_reads(F, fn, depth=0) & {"asserts"}   # an inline test in do_binary_op itself
+        missing = [p for p in LAYER_PARTS + ("super_layers",) if p not in reads]
+        ok = not missing
+        rep.ob(R, "add-objects|path%d|shortcut" % n, ok, {"helpers": helpers, "reads": sorted(reads)})
+        if not ok:
+            rep.violation(R, "do_binary_op|Add|Object|shortcut-ignores|%s" % ",".join(missing),
+                          "`object + object` has a path that does not call extend_object (helpers on it: %s) and never looks at "
+                          "the operand's %s: an operand that only carries %s is dropped from the result"
+                          % ([h.rsplit("::", 1)[-1] for h in helpers], "/".join(missing), "/".join(missing)), fn.loc)
+    rep.floor(R, n, 1, "success paths of Add on two objects")
+
+
 def run(F, rep, tier):
     R1, R2 = rule_r1_r2_objects(F, rep)
     rule_r2_clones(F, rep, R2)
     rule_r3(F, rep)
     rule_r3_merge(F, rep)
     rule_r5(F, rep)
+    rule_r7(F, rep)
     from . import objflags
     objflags.rule(F, rep, "C07.R2b")
     from . import visibility
     visibility.rule(F, rep, "C07.R4")
+    visibility.rule_partition(F, rep, "C07.R6")
     rep.assume("layer-index arithmetic (layer_i + depth + 1, super_layers.len() + 1), value-level associativity and "
                "self/super/$ resolution at nesting are not decided")
     rep.trust("Jsonnet specification: field visibility of inherited fields (the right-most explicit visibility wins; default inherits)")
